@@ -500,6 +500,7 @@ def check(prop: str, tier: str) -> int:
         return 2
 
     reported = []
+    nondeterministic = 0
     viols = sorted(agg["violations"], key=lambda v: v["run"])
     seen_klass = set()
     for rec in viols:
@@ -521,6 +522,12 @@ def check(prop: str, tier: str) -> int:
                 got1 = fresh_replay(prop, path, "0")
                 got2 = fresh_replay(prop, path, "1")
                 mini = dict(multi, steps=[st for m in multi["multi"] for st in m["steps"]])
+        same_property = bool(got1) and bool(got2) and got1.split("/")[0] == want.split("/")[0] and got2.split("/")[0] == want.split("/")[0]
+        if (got1 != want or got2 != want) and same_property:
+            # every replay violates the property, but not always through the same oracle / operation: the code under
+            # test is itself not a function of the seeded stream (e.g. it draws from an OS-seeded generator)
+            print(f"NOTE: replays of {path} violate {prop} as {got1} / {got2} (first seen as {want}): the code under test is not deterministic under the seeded stream")
+            want = got1 = got2
         if got1 == want and got2 == want:
             print(f"VIOLATION property={prop} replay={path}")
             print(f"  class={want} run={rec['run']} steps={len(mini['steps'])} (from {len(rec['steps'])})")
@@ -529,7 +536,9 @@ def check(prop: str, tier: str) -> int:
             exit_code = 1
         else:
             print(f"HARNESS-NONDETERMINISM: replay of {path} gave {got1!r}/{got2!r}, expected {want!r}")
-            return 2
+            nondeterministic += 1
+    if nondeterministic and not reported:
+        return 2
     # timeouts: a run that does not return within the cap
     if agg["timeouts"]:
         print(f"HARNESS-ERROR: {len(agg['timeouts'])} run(s) exceeded the wall cap: runs {agg['timeouts'][:5]}")
